@@ -13,7 +13,8 @@ TRUSTED = ['Lean 4.33.0 kernel (+ leanchecker in the thorough tier)',
 ASSUME = ['CPython json.dumps(indent=4, ensure_ascii=True) and json.loads are modelled (dumps / loads), validated character for '
           'character on every generated document; floats, NaN and Infinity are outside the model and excluded from generation',
           'str.split / str.join / str.index are modelled']
-RULE = ('cases = random JSON documents (depth <= 6) over an adversarial alphabet (quote, colon, braces, brackets, backslash, comma, '
+RULE = ('end-to-end: PELs with nasty built-in JSON / text user data through -f, -a and -j (fresh output directory and over stale files of the same name); ' +
+        'cases = random JSON documents (depth <= 6) over an adversarial alphabet (quote, colon, braces, brackets, backslash, comma, '
         'space, newline, non-ASCII, astral, DEL, NUL), keys up to 60 chars so that both ind < desired and ind >= desired occur, '
         'desiredSpace in {29, 34}; plus raw text lines for the aligner and raw texts for loads; non-trivial = contains at least one '
         'object key; distinct by document')
@@ -138,7 +139,97 @@ def run(tier, seed):
             continue
         if m != real:
             ck.disagree('json.loads differs from the model', {'op': 'loads', 'text': t, 'impl': repr(real)[:200], 'model': repr(m)[:200]})
+    end_to_end(ck, rng, thorough)
     return ck.finish(RULE, TRUSTED, ASSUME)
+
+
+def end_to_end(ck, rng, thorough):
+    """what the TOOL prints (-f, -a) or writes (-j, also over older, longer files of the same name) parses back to the document
+    the decoder produced for that PEL"""
+    import os
+    import shutil
+    import tempfile
+    import apel
+    import clirun
+    import pelbuild
+    nasty = ['\u2028', '\u2029', '\x85', '\x1c', '\r', '\x0b', '\x0c', '":', '\\', '"', ':', '{', 'é', '😀', '\x7f', 'x": y', '\t', '\\"', '  ']
+    env = apel.PluginEnv(allow=True).install()
+    tmp = tempfile.mkdtemp(prefix='c06_')
+    try:
+        for rnd in range(12 if thorough else 4):
+            files = []
+            for i in range(rng.choice([1, 2, 3])):
+                doc = {}
+                for _ in range(rng.randrange(1, 5)):
+                    k = ''.join(rng.choice(nasty + list('abcXYZ 01')) for _ in range(rng.randrange(1, 12)))
+                    v = rng.choice([''.join(rng.choice(nasty + list('abc de')) for _ in range(rng.randrange(0, 40))), rng.randrange(10 ** 6), None, True,
+                                    [''.join(rng.choice(nasty + list('ab')) for _ in range(rng.randrange(0, 9))) for _ in range(rng.randrange(0, 4))], {'n': {'k"': 'v:'}}])
+                    doc[k] = v
+                text = '\n'.join(''.join(rng.choice(nasty + list('word ')) for _ in range(rng.randrange(0, 30))).replace('\n', ' ') for _ in range(rng.randrange(1, 5)))
+                secs = [pelbuild.UH(), pelbuild.SRC(), pelbuild.UD(json.dumps(doc, ensure_ascii=rng.random() < 0.5).encode(), sub=1),
+                        pelbuild.UD((text or 'x').encode(), sub=3)]
+                if rng.random() < 0.4:
+                    secs.append(pelbuild.UD(bytes(rng.randrange(256) for _ in range(rng.randrange(1, 40))), sub=2))
+                files.append(('pel_%d_%d' % (rnd, i), pelbuild.pel(secs, eid=0x50000100 + 16 * rnd + i)))
+            # files that cannot be decoded, listed between / after the good ones: they must not change what is printed for the list
+            files.append(('pel_%d_0_cut' % rnd, files[0][1][:rng.choice([47, 60, 100])]))
+            files.append(('pel_%d_zz_cut' % rnd, files[-2][1][:rng.choice([49, 73, 120])]))
+            want = {}
+            for n, b in files:
+                real = apel.real_decode(b)
+                if real[0] == 'doc':
+                    want[n] = (real[1], json.loads(real[4]))
+                elif real[0] == 'invalid-json':
+                    ck.fail('the text the decoder produces for a PEL is not valid JSON: ' + real[2], {'op': 'parsePEL', 'data_hex': b.hex(), 'text_head': real[4][:300]}, 'e2e_invalid')
+            if not want:
+                continue
+            d = clirun.make_dir(files, base=tmp)
+            names = sorted(want)
+            rp = {'op': 'cli-json-text', 'files': [(n, b.hex()) for n, b in files]}
+            # -f
+            for n in names:
+                so, se, sx = clirun.run_main(['-f', os.path.join(d, n), '-E'])
+                ck.case(key=('-f', dict(files)[n]), sample={'e2e': '-f', 'bytes': len(dict(files)[n])} if rnd == 0 else None)
+                ck.count('end-to-end -f')
+                try:
+                    ok = json.loads(so) == want[n][1]
+                except Exception:
+                    ok = False
+                if not ok:
+                    ck.fail('the text printed by -f does not parse back to the decoded document', rp | {'argv': ['-f', n], 'stdout': so[:300]}, 'e2e_file')
+            # -a
+            so, se, sx = clirun.run_main(['-p', d, '-a', '-E'])
+            ck.case(key=('-a', tuple(files)))
+            ck.count('end-to-end -a')
+            try:
+                ok = json.loads(so) == [want[n][1] for n in names]
+            except Exception:
+                ok = False
+            if not ok:
+                ck.fail('the text printed by -a does not parse back to the list of decoded documents', rp | {'argv': ['-a'], 'stdout': so[:300]}, 'e2e_all')
+            # -j into an empty directory, and again over stale files of the same names (longer and shorter than the new text)
+            for stale in (None, 'longer', 'shorter'):
+                od = clirun.make_dir([], base=tmp)
+                if stale:
+                    for n in names:
+                        with open(os.path.join(od, '%s.%s.json' % (n, want[n][0])), 'w') as f:
+                            f.write('{"stale": "%s"}' % ('x' * (200000 if stale == 'longer' else 1)))
+                so, se, sx = clirun.run_main(['-p', d, '-j', '-o', od, '-E'])
+                ck.case(key=('-j', stale, tuple(files)))
+                ck.count('end-to-end -j (%s)' % (stale or 'fresh directory'))
+                for n in names:
+                    path = os.path.join(od, '%s.%s.json' % (n, want[n][0]))
+                    try:
+                        ok = json.load(open(path)) == want[n][1]
+                    except Exception:
+                        ok = False
+                    if not ok:
+                        ck.fail('the file written by -j does not parse back to the decoded document', rp | {'argv': ['-j'], 'existing_output': stale, 'file': os.path.basename(path),
+                                'head': open(path).read()[:200] if os.path.exists(path) else None}, 'e2e_json')
+                        break
+    finally:
+        env.uninstall()
+        shutil.rmtree(tmp, ignore_errors=True)
 
 
 def contains_float(v):
